@@ -115,6 +115,9 @@ fn health(c: &BTreeMap<String, u64>, _thorough: bool) -> Result<(), String> {
         ("wire:len-256", 20),
         ("parsed:ok", 100),
         ("parsed:rejected-long", 20),
+        ("parsed:ok-with-target>=1024", 500),
+        ("parsed:max-target-0x3ffd..0x3fff", 100),
+        ("parsed:max-target-1024..0x1fff", 100),
         ("ops:chain-abs:ok", 100),
         ("ops:chain-abs:rejected", 20),
         ("ops:chain-rel:ok", 50),
